@@ -33,6 +33,8 @@ type propInfo struct {
 	QuickSec      int               `json:"quick_sec"`
 	ThoroughSec   int               `json:"thorough_sec"`
 	Race          bool              `json:"race"`
+	RacePhases    []int             `json:"race_phases"`
+	PhaseBudget   []int             `json:"phase_budget"`
 	Procs         int               `json:"procs"`
 	Workers       int               `json:"workers"`
 	RunTimeoutSec int               `json:"run_timeout_sec"`
@@ -175,6 +177,9 @@ func main() {
 		budget := 0
 		if phase == info.Phases-1 {
 			budget = ck.budget
+		}
+		if len(info.PhaseBudget) == info.Phases {
+			budget = ck.budget * info.PhaseBudget[phase] / 100
 		}
 		ck.runPhase(phase, kvPath, budget, kv)
 	}
@@ -353,7 +358,7 @@ func (ck *checker) workerEnv(race bool, procs int, tag string) []string {
 	}
 	env = append(env, fmt.Sprintf("GOMAXPROCS=%d", procs))
 	if race {
-		env = append(env, fmt.Sprintf("GORACE=halt_on_error=1 exitcode=66 atexit_sleep_ms=0 log_path=%s", filepath.Join(buildDir, "race-"+tag)))
+		env = append(env, "GORACE=halt_on_error=1 exitcode=66 atexit_sleep_ms=0")
 	}
 	return env
 }
@@ -592,10 +597,19 @@ func (ck *checker) runWorkerOnce(spec workerSpec, kvOut map[string]string, skip 
 
 func (ck *checker) runPhase(phase int, kvPath string, budget int, kvOut map[string]string) {
 	var wg sync.WaitGroup
-	procsList := []int{ck.info.Procs}
+	race := false
+	for _, rp := range ck.info.RacePhases {
+		if rp == phase {
+			race = true
+		}
+	}
 	for w := 0; w < ck.workers; w++ {
 		wg.Add(1)
-		spec := workerSpec{idx: w, phase: phase, kv: kvPath, budget: budget, race: false, procs: procsList[0]}
+		spec := workerSpec{idx: w, phase: phase, kv: kvPath, budget: budget, race: race, procs: ck.info.Procs}
+		if race {
+			// the race world runs the same schedules at several GOMAXPROCS values
+			spec.procs = []int{1, 4, 16}[w%3]
+		}
 		go func() {
 			defer wg.Done()
 			ck.runWorker(spec, kvOut)
